@@ -217,7 +217,8 @@ def mustBeBreaking : List String :=
   ["TypeChangedKind", "TypeRemoved", "TypeRemovedFromUnion", "TypeRemovedFromInterface",
    "EnumValueRemoved", "DirectiveRemoved", "DirectiveLocationRemoved", "DirectiveArgumentRemoved",
    "DirectiveArgumentChangedType", "FieldArgumentRemoved", "FieldArgumentChangedType",
-   "FieldChangedType", "FieldRemoved", "InputFieldRemoved", "InputFieldChangedType"]
+   "FieldChangedType", "FieldRemoved", "InputFieldRemoved", "InputFieldChangedType",
+   "RootTypeChanged", "RootTypeRemoved"]
 
 def breakingWhenRequired : List String :=
   ["DirectiveArgumentAdded", "FieldArgumentAdded", "InputFieldAdded"]
